@@ -17,6 +17,7 @@ import ASV.Proofs.OrfSort
 import ASV.Proofs.OrfExtract
 import ASV.Proofs.OrfGaps
 import ASV.Proofs.OrfChunk
+import ASV.Proofs.OrfCross
 namespace ASV.C15
 open ASV ASV.Orf
 
@@ -88,6 +89,13 @@ theorem scan_orfs_exact_partial (seq : Seq) (fwd : Bool) (offset minLen : Int) (
   constructor
   · rintro ⟨s, e, h1, h2, h3⟩; exact ⟨s, e, h1, by omega, h3⟩
   · rintro ⟨s, e, h1, h2, h3⟩; have := h s e h1; exact ⟨s, e, h1, by omega, h3⟩
+
+/-- the codon tables of the tree under test (regenerated every run) hold exactly the codons the
+    property names; the spec itself never reads them -/
+theorem codon_tables_as_documented :
+    (∀ c ∈ Gen.startCodons, c ∈ docStartCodons) ∧ (∀ c ∈ docStartCodons, c ∈ Gen.startCodons) ∧
+    (∀ c ∈ Gen.stopCodons, c ∈ docStopCodons) ∧ (∀ c ∈ docStopCodons, c ∈ Gen.stopCodons) :=
+  tables_as_documented
 
 /-- the executable spec the driver runs on implementation output is the propositional one -/
 theorem spec_orfs_enumerates (w : Seq) (s e : Nat) : (s, e) ∈ specOrfs w ↔ IsOrf w s e :=
@@ -201,6 +209,19 @@ theorem all_orfs_in_gaps (rec : Seq) (genes : List Gene) (start «end» minLen p
   obtain ⟨h1, h2, _, h4⟩ := hs a ha
   exact ⟨a, hin, h1, h2, h4⟩
 
+/-- origin-crossing search: the areas handed to the scanning loop are intergenic areas of the
+    area's parts (each sound by `intergenic_sound`), except that the one ending at the record's
+    end and the one starting at 0 are joined into one area reaching back over the origin, whose
+    bases are exactly those of the two -/
+theorem cross_origin_areas_sound (parts : List (Int × Int × List Gene)) (L minLen pad : Int)
+    (areas : List (Int × Int)) (h : crossOriginIntergenic parts L minLen pad = some areas) :
+    ∀ a ∈ areas,
+      (∃ p ∈ parts, a ∈ findIntergenic p.1 p.2.1 p.2.2 minLen pad) ∨
+      (∃ p ∈ parts, ∃ q ∈ parts, ∃ pre ∈ findIntergenic p.1 p.2.1 p.2.2 minLen pad,
+        ∃ post ∈ findIntergenic q.1 q.2.1 q.2.2 minLen pad,
+        pre.2 = L ∧ post.1 = 0 ∧ a = (pre.1 - L, post.2)) :=
+  crossOrigin_sound parts L minLen pad areas h
+
 /-- the chunk cut for an area is a window of the record, so (forward scan) every location
     reported for it extracts from the upper-cased record to an ORF of the chunk -/
 theorem all_orfs_extract_fwd (comp : Char → Char) (rec : Seq) (st en minLen : Int)
@@ -257,6 +278,8 @@ example : extract complement "TAAATGAAACCC".toList (.compound [⟨3, 12, .fwd⟩
     = "ATGAAACCCTAA".toList := by decide
 /-- the cursor of the gap search does not move backwards (D26): genes [0,110) and [50,105), pad 10 -/
 example : findIntergenic 0 300 [⟨0, 110⟩, ⟨50, 105⟩] 0 10 = [(0, 10), (100, 300)] := by decide
+/-- origin-crossing area of a ring of 60 with parts [40,60) and [0,20), no genes: one joined area -/
+example : crossOriginIntergenic [(40, 60, []), (0, 20, [])] 60 6 0 = some [(-20, 20)] := by decide
 example : sortedByStart [⟨0, 110⟩, ⟨50, 105⟩] := (sortedByStartB_iff _).1 (by decide)
 
 end ASV.C15
